@@ -455,9 +455,22 @@ def rule_insert_table(an, res, prop):
                                                                                         [repr(e) for e in init], [repr(e) for e in post]))
 
 
-def remove_group_ok(effs, ent):
+def own_position(e, ent, L):
+    """is the value of this partition store the stored list position of entity `ent` (ld of the back pointer of ent's own slot)?"""
+    v = getattr(e, 'val', None)
+    try:
+        if is_ld(v) and v[2][0] == 'fld' and isinstance(v[2][1], tuple) and v[2][1][0] == 'idx':
+            return same_ent(L.sid_entity(v[2][1][2]), ent)
+    except Exception:
+        return False
+    return False
+
+
+def remove_group_ok(effs, ent, L=None):
     """effects consist solely of the REMOVE of entity `ent`"""
     for e in effs:
+        if e.kind == 'PART' and e.delta is None and L is not None and own_position(e, ent, L):
+            continue      # `m_lru_end = e.m_lru_position`: the partition moved onto the removed entry's own node (its place: C03 / C10)
         if e.kind in ('CNT', 'PART'):
             if e.delta not in (-1, 0):
                 return False
@@ -533,7 +546,7 @@ def rule_noninterference(an, res):
                         if exp is True:
                             case = 'expired-hit'
                             fk = next(c[1][0] for c in seg.conds if c[0] in ('EXPIRED', 'EXPIRED_STRICT') and c[1][0].kind == 'FOUND')
-                            ok = (remove_group_ok(effs, fk) or not effs) and not extra     # discarding it is allowed, not required
+                            ok = (remove_group_ok(effs, fk, seg.L) or not effs) and not extra     # discarding it is allowed, not required
                         elif peek is True:
                             case = 'peek-hit'
                             ok = not effs and not extra
@@ -1103,6 +1116,9 @@ def check_removals(res, prop, cm, roles, m, k, seg):
                     hk = [c for c in seg.conds if c[0] == 'HASKEY' and c[2]]
                     if hk and same_ent(hk[0][1][0], ent) and ent.kind in POLICY_VICTIMS['fifo_cache']:
                         lic = 'fifo recycles the head node which holds a key'
+                    elif full is True and ent.kind == 'FRONT':
+                        # as many keys as nodes (R-BALANCE keeps the counter equal to the number of keyed nodes): every node holds a key
+                        lic = 'fifo recycles the head node of a full list'
                 elif full is True and roles.name == 'rr_cache' and ent.kind == 'RAWRNG':
                     from rules_misc import raw_draw_is_bound_slot
                     if raw_draw_is_bound_slot(seg, ent):
